@@ -34,11 +34,11 @@ theorem accepts_filterMap (f : Item → Option Resolve.Ev) : ∀ (l : List Item)
   | x :: xs => by
     rw [List.filterMap_cons, List.filter_cons]
     cases hf : f x with
-    | none => simp [hf, accepts_filterMap f xs]
+    | none => simp [accepts_filterMap f xs]
     | some e =>
       cases e with
       | accept =>
-        simp only [hf, beq_self_eq_true, if_true, List.length_cons]
+        simp only [beq_self_eq_true, if_true, List.length_cons]
         rw [Resolve.accepts_cons_accept, accepts_filterMap f xs]
       | red r =>
         have : (some (Resolve.Ev.red r) == some Resolve.Ev.accept) = false := by simp
